@@ -140,6 +140,32 @@ def run(ctx):
                                        "limit": [3, 30][j % 2], "m": 2, "biased": bool(j % 2), "eps": 0, "joint": j % 3 == 1,
                                        "lengths": [[80], [45, 50], [90]][j % 3], "data_seed": 680 + j, "rng_seed": 680 + j, "regimes": 2 + j % 2,
                                        "offset": [1e5, 3e6, 6.4e6, 1e7][j % 4]} for j in range(ctx.budget(4, 10))], "c06off")
+        # a numerical failure of the optimisation step in a LATER round (a singular thresholded MRF: np.linalg.inv raises):
+        # the run either raises - then there is no result to judge - or whatever it returns must be consistent like any other result
+        def failing_inv(at_call):
+            import numpy.linalg as _la
+            def patches():
+                orig_inv = _la.inv
+                state = {"n": 0}
+                def inv(a, *args, **kw):
+                    state["n"] += 1
+                    if state["n"] == at_call:
+                        raise _la.LinAlgError("Singular matrix (injected at inv call %d)" % at_call)
+                    return orig_inv(a, *args, **kw)
+                _la.inv = inv
+                np.linalg.inv = inv
+                def undo():
+                    _la.inv = orig_inv
+                    np.linalg.inv = orig_inv
+                return [undo]
+            return patches
+        for j, at_call in enumerate([5, 8, 11] if not ctx.thorough else [4, 5, 7, 8, 10, 11, 14]):
+            cfg_f = {"N": 2, "W": 2, "K": 3, "beta": 4.0, "lam": 0.11, "limit": 6, "m": 2, "biased": False, "eps": 0, "joint": False,
+                     "lengths": [90], "data_seed": 690 + j, "rng_seed": 690 + j, "regimes": 3, "fault": "np.linalg.inv raises LinAlgError at its call number %d" % at_call}
+            rf = e2e.traced_run(cfg_f, extra_patches=failing_inv(at_call))
+            ctx.count("run-with-numerical-failure")
+            if rf["error"] is None:
+                runs.append(rf)
         empties = 0
         for r in runs:
             ctx.count("run")
